@@ -28,6 +28,9 @@ where
     POut:           BezierPathFactory,
     POut::Point:    Coordinate+Coordinate2D,
 {
+    #[cfg(flo_curves_verif)]
+    super::ray_cast::verif_trace::push(super::ray_cast::verif_trace::Event::Op("sub", vec![super::ray_cast::verif_trace::fingerprint(path1), super::ray_cast::verif_trace::fingerprint(path2)]));
+
     // If either path is empty, short-circuit by returning the other
     if path1.is_empty() {
         return vec![];
